@@ -271,9 +271,15 @@ package document
 //@ spec elemsOwned(es []any, b int) bool = forall j int :: {es[j]} 0 <= j && j < len(es) ==> elemOwned(es[j], b)
 //@ spec docOwned(d *Document, b int) bool = d != nil && above(d, b) && d.Body != nil && above(d.Body, b) && above(d.Body.Elements, b) && elemsOwned(d.Body.Elements, b) && above(d.parts, b)
 
+// xmlEsc: the five-fold replacement chain that makes a string safe as XML character data / attribute value
+// (& first, so that the entities written by the later steps are not escaped again). What lands in raw XML
+// (header/footer parts) must have this form: zz_contracts_verif_rawxml.go.
+//@ spec xmlEsc(s string) string = strings.ReplaceAll(strings.ReplaceAll(strings.ReplaceAll(strings.ReplaceAll(strings.ReplaceAll(s, "&", "&amp;"), "<", "&lt;"), ">", "&gt;"), "\"", "&quot;"), "'", "&apos;")
+
 //@ func (*TemplateEngine).escapeXMLContent
-//@ props C17
+//@ props C17, C01
 //@ modifies nothing
+//@ ensures result == xmlEsc(s)
 
 //@ func (*TemplateEngine).replaceVariablesInXMLPart
 //@ props C17
